@@ -599,9 +599,9 @@ namespace mustache {
         void updateComponents(const ComponentIdMask& to_remove, Entity entity, TupleType& tuple,
                               SharedComponentsInfo, const std::index_sequence<_I...>&);
 
-        [[nodiscard]] WorldVersion worldVersion() const noexcept {
-            return world_version_;
-        }
+        // version used to stamp mutable component access and markDirty():
+        // always the live world version, the one jobs compare against
+        [[nodiscard]] WorldVersion worldVersion() const noexcept;
 
         friend Archetype;
 #ifdef MUSTACHE_VERIF
@@ -642,7 +642,6 @@ namespace mustache {
         ArrayWrapper<EntityLocationInWorld, EntityId, true> locations_;
         std::set<Entity, std::less<Entity>, Allocator<Entity> > marked_for_delete_;
         WorldId this_world_id_;
-        WorldVersion world_version_;
         // TODO: replace shared pointed with some kind of unique_ptr but with deleter calling clearArchetype
         // NOTE: must be the last field(for correct default destructor).
         ArrayWrapper<std::shared_ptr<Archetype>, ArchetypeIndex, true> archetypes_;
